@@ -98,6 +98,10 @@ def parse_log(text):
     m = RE_TIME.search(text)
     if m:
         r["solver_s"] = float(m.group(1))
+    # size of the propositional problem handed to the SAT solver (CBMC: "N variables, M clauses")
+    vc = [(int(a), int(b)) for a, b in re.findall(r"(\d+) variables, (\d+) clauses", text)]
+    if vc:
+        r["sat_vars"], r["sat_clauses"] = max(vc)
     # failed checks: "Failed Checks: <msg>\n File: "<f>", line N, in <fn>"
     for fm in re.finditer(r"Failed Checks: (.*)\n(?: File: \"([^\"]*)\", line (\d+), in (\S+))?", text):
         r["failed_checks"].append({"msg": fm.group(1).strip(), "file": fm.group(2) or "", "line": int(fm.group(3) or 0),
@@ -467,6 +471,7 @@ def write_ev(prop, P, tier, seed, results, build_s, violations, known_hits, inco
             "obligation": h.get("claim", ""), "bound": h.get("bound", ""), "functions": h.get("functions", []),
             "verdict": r["status"], "reason": r["reason"], "checks": r["checks"], "failed": r["failed"],
             "reachability_witnesses": "%d/%d" % (r["covers_sat"], r["covers"]), "solver_s": r["solver_s"], "wall_s": r["wall_s"],
+            "sat_variables": r.get("sat_vars", 0), "sat_clauses": r.get("sat_clauses", 0),
             "failed_checks": r.get("failed_checks", [])[:5],
         })
     ev = {
